@@ -75,6 +75,10 @@ def binary_op(op: str, fst, snd):
     if op == "/":
         return sp.Mul(fst, sp.Pow(snd, sp.Integer(-1), evaluate=False), evaluate=False)
     if op == "*":
+        if fst.is_number and snd.is_number and fst.has(sp.pi) and snd.has(sp.pi):
+            # sympy's trigonometric functions read an unevaluated pi*pi as a
+            # multiple of pi (cos(pi*pi) -> -1); written as a power it is left alone
+            return sp.Mul(fst, snd)
         return sp.Mul(fst, snd, evaluate=False)
     if op == "**":
         return sp.Pow(fst, snd, evaluate=False)
